@@ -223,7 +223,10 @@ def sync_scenarios():
 
 
 def run(tier, seed, replay=None):
-    scs = None if replay is not None else c15.scenarios(tier, seed) + stale_scenarios(tier, seed) + sync_scenarios()
+    # (the bad-close family cancels a sequence in flight: what that does to the next caller's answer on drivers without
+    # command identifiers is C17's known finding, so those runs are judged by C15 and C17 only)
+    scs = None if replay is not None else [s_ for s_ in c15.scenarios(tier, seed) if s_.get("tag") != "bad-close"] \
+        + stale_scenarios(tier, seed) + sync_scenarios()
     out, rej, recs = c15.judge("C16", "c16", tier, seed, replay, scs=scs)
     out.rule = ("same scenarios as C15; per command: None iff no answer is expected, else the command's own response "
                 "type wrapping the outcome the fake gateway assigned to that wire entry; non-trivial as C15")
